@@ -32,23 +32,46 @@ func init() { props["C08"] = runC08 }
 var errDial08 = errors.New("dial refused (injected)")
 
 type srv08 struct {
-	mu       sync.Mutex
-	cond     *sync.Cond
-	stream   bool
-	conns    []*fakeConn
-	born     map[int]time.Time
-	mode     map[int]string // per connection: what happens on the next write
-	defMode  string         // mode of newly dialed connections
-	dialFail bool
-	held     []func()
-	nwrites  int
-	replied  map[string]bool // "<conn>/<tag>" -> the server answered (or will answer) that write
-	order    map[int][]int   // tag -> connection ids in write order
-	nextID   int
+	mu        sync.Mutex
+	cond      *sync.Cond
+	stream    bool
+	conns     []*fakeConn
+	born      map[int]time.Time
+	mode      map[int]string // per connection: what happens on the next write
+	defMode   string         // mode of newly dialed connections
+	dialFail  bool
+	held      []func()
+	nwrites   int
+	replied   map[string]bool // "<conn>/<tag>" -> the server answered (or will answer) that write
+	order     map[int][]int   // tag -> connection ids in write order
+	nextID    int
+	gate      chan struct{} // if non-nil, a dial waits here (a slow handshake) until the harness lets it finish
+	gateIn    int           // dials that reached the gate
+	viaGate   map[int]bool  // connections whose dial was held at the gate
+	gateMode  []string      // behaviour of the connections whose dial was held (taken in turn); empty: defMode
+	slowClose time.Duration // Close() of a connection dialed from now on takes that long (a TLS close_notify over a stalled link)
+}
+
+// slowClose08 is a connection whose Close takes a while.
+type slowClose08 struct {
+	*fakeConn
+	d time.Duration
+}
+
+func (c slowClose08) Close() error { time.Sleep(c.d); return c.fakeConn.Close() }
+
+func (s *srv08) wrap(c *fakeConn) transport.NetConn {
+	s.mu.Lock()
+	d := s.slowClose
+	s.mu.Unlock()
+	if d > 0 {
+		return slowClose08{c, d}
+	}
+	return c
 }
 
 func newSrv08() *srv08 {
-	s := &srv08{stream: true, born: map[int]time.Time{}, mode: map[int]string{}, defMode: "answer", replied: map[string]bool{}, order: map[int][]int{}}
+	s := &srv08{stream: true, born: map[int]time.Time{}, mode: map[int]string{}, defMode: "answer", replied: map[string]bool{}, order: map[int][]int{}, viaGate: map[int]bool{}}
 	s.cond = sync.NewCond(&s.mu)
 	return s
 }
@@ -56,16 +79,80 @@ func newSrv08() *srv08 {
 func (s *srv08) dial() (*fakeConn, error) {
 	s.mu.Lock()
 	defer s.mu.Unlock()
+	asked := time.Now() // a connection is "opened for" the call that asked for the dial, however long the dial takes
+	held := false
+	if g := s.gate; g != nil {
+		held = true
+		s.gateIn++
+		s.cond.Broadcast()
+		s.mu.Unlock()
+		<-g
+		s.mu.Lock()
+	}
 	if s.dialFail {
 		return nil, errDial08
 	}
 	s.nextID++
 	c := newFakeConn(s.nextID, s.stream)
 	s.conns = append(s.conns, c)
-	s.born[c.id] = time.Now()
+	s.born[c.id] = asked
 	s.mode[c.id] = s.defMode
+	if held {
+		if len(s.gateMode) > 0 {
+			s.mode[c.id] = s.gateMode[len(s.viaGate)%len(s.gateMode)]
+		}
+		s.viaGate[c.id] = true
+	}
 	c.onWrite = s.onWrite
 	return c, nil
+}
+
+// holdDials makes every dial from now on wait (a slow handshake) until letDialsFinish.
+func (s *srv08) holdDials() { s.mu.Lock(); s.gate = make(chan struct{}); s.gateIn = 0; s.mu.Unlock() }
+
+func (s *srv08) letDialsFinish() {
+	s.mu.Lock()
+	if s.gate != nil {
+		close(s.gate)
+		s.gate = nil
+	}
+	s.mu.Unlock()
+}
+
+// waitHeldDials waits until n dials are waiting at the gate.
+func (s *srv08) waitHeldDials(n int, d time.Duration) bool {
+	deadline := time.Now().Add(d)
+	s.mu.Lock()
+	defer s.mu.Unlock()
+	for s.gateIn < n {
+		if time.Now().After(deadline) {
+			return false
+		}
+		time.AfterFunc(2*time.Millisecond, func() { s.mu.Lock(); s.cond.Broadcast(); s.mu.Unlock() })
+		s.cond.Wait()
+	}
+	return true
+}
+
+// waitConns waits until n connections exist and the transport is reading from each of them (or has closed it).
+func (s *srv08) waitConns(n int, d time.Duration) bool {
+	deadline := time.Now().Add(d)
+	for {
+		s.mu.Lock()
+		cs := append([]*fakeConn(nil), s.conns...)
+		s.mu.Unlock()
+		if len(cs) >= n {
+			ok := true
+			for _, c := range cs {
+				ok = ok && c.waitDrained(time.Until(deadline))
+			}
+			return ok
+		}
+		if time.Now().After(deadline) {
+			return false
+		}
+		time.Sleep(200 * time.Microsecond)
+	}
 }
 
 func (s *srv08) onWrite(c *fakeConn, w []byte) error {
@@ -210,7 +297,7 @@ func mk08(kind string, s *srv08, maxq int) *tr08 {
 			if err != nil {
 				return nil, err
 			}
-			return c, nil
+			return s.wrap(c), nil
 		}})
 		t.ex, t.close = tp.ExchangeContext, func() { tp.Close() }
 		return t
@@ -225,7 +312,7 @@ func mk08(kind string, s *srv08, maxq int) *tr08 {
 		if err != nil {
 			return nil, err
 		}
-		dc := transport.NewDnsConn(transport.TraditionalDnsConnOpts{WithLengthHeader: kind != "pipeline-udp", IdleTimeout: 10 * time.Second, MaxConcurrentQuery: maxq}, c)
+		dc := transport.NewDnsConn(transport.TraditionalDnsConnOpts{WithLengthHeader: kind != "pipeline-udp", IdleTimeout: 10 * time.Second, MaxConcurrentQuery: maxq}, s.wrap(c))
 		return &armDnsConn{inner: dc, fake: c, armed: t.armed, extra: t.extra}, nil
 	}})
 	t.ex, t.close = tp.ExchangeContext, func() { tp.Close() }
@@ -336,6 +423,167 @@ func classify08(kind string, s *srv08, r res08, extra int, poolAtStart int) (str
 		return fmt.Sprintf("%s attempts=%d%s", "errGaveUp", n, strings.TrimPrefix(out, "errGaveUp")), n
 	}
 	return fmt.Sprintf("%s attempts=%d", out, n), n
+}
+
+// parked08 runs one "gave up during the dial" scenario (see P in runC08): p callers whose contexts are cancelled
+// while their dials are held, k0 connections that answered a query, then one query against what is in the pool.
+func parked08(r *Run, check func(string, res08, string, int, map[string]any, int, bool, bool), kind string, p, k0 int, fate string, join bool) {
+	mkind := kind
+	if kind == "pipeline-udp" {
+		mkind = "pipeline"
+	}
+	kills := []string{"eof-after-write", "reset-on-write"}
+	for try := 0; try < 3; try++ {
+		s := newSrv08()
+		t := mk08(kind, s, 1)
+		// k0 queries in flight, answered later: their connections carry a query and are idle afterwards
+		s.setDefault("hold")
+		var wg sync.WaitGroup
+		setup := true
+		for i := 0; i < k0; i++ {
+			wg.Add(1)
+			go func() {
+				defer wg.Done()
+				ctx, cancel := context.WithTimeout(context.Background(), 3*time.Second)
+				defer cancel()
+				t.query(ctx)
+			}()
+			setup = s.waitWrites(i+1, 2*time.Second) && setup
+		}
+		// what the server will do on the next write to those k0 connections (their held replies are not affected)
+		s.mu.Lock()
+		for _, c := range s.conns {
+			m := fate
+			if fate == "random" {
+				m = []string{"answer", "eof-after-write", "reset-on-write", "eof-after-write", "answer-then-eof"}[r.Rng.Intn(5)]
+			} else if fate == "idle-eof" {
+				m = "answer"
+			}
+			s.mode[c.id] = m
+		}
+		s.mu.Unlock()
+		// what the server will do with the connections whose handshake is slow, and with a connection dialed later
+		gm := make([]string, p)
+		for i := range gm {
+			switch fate {
+			case "random":
+				gm[i] = []string{"answer", "eof-after-write", "reset-on-write", "answer-then-eof"}[r.Rng.Intn(4)]
+			case "idle-eof":
+				gm[i] = "answer"
+			default:
+				gm[i] = fate
+			}
+		}
+		freshMode := "answer"
+		if fate == "random" && r.Rng.Intn(4) == 0 {
+			freshMode = kills[r.Rng.Intn(2)]
+		}
+		s.mu.Lock()
+		s.gateMode = gm
+		s.mu.Unlock()
+		// p callers give up while their connection is being dialed
+		s.holdDials()
+		aRes := make([]res08, p)
+		cancels := make([]context.CancelFunc, p)
+		var awg sync.WaitGroup
+		for i := 0; i < p; i++ {
+			ctx, cancel := context.WithTimeout(context.Background(), 3*time.Second)
+			cancels[i] = cancel
+			awg.Add(1)
+			go func(i int) { defer awg.Done(); aRes[i] = t.query(ctx) }(i)
+			setup = s.waitHeldDials(i+1, 2*time.Second) && setup
+		}
+		for _, c := range cancels {
+			c()
+		}
+		awg.Wait()
+		s.setDefault(freshMode)
+		var joined chan res08
+		if join { // pipeline: the next query arrives while the abandoned dial is still going on and waits for that connection
+			joined = make(chan res08, 1)
+			go func() {
+				ctx, cancel := context.WithTimeout(context.Background(), 3*time.Second)
+				defer cancel()
+				joined <- t.query(ctx)
+			}()
+			time.Sleep(time.Duration(r.Rng.Intn(3)) * time.Millisecond)
+		}
+		s.letDialsFinish()
+		setup = s.waitConns(k0+p, 2*time.Second) && setup
+		if !join {
+			time.Sleep(2 * time.Millisecond) // reuse: the dial goroutine parks the connection right after starting its reader (no event to wait for)
+		}
+		s.release()
+		wg.Wait()
+		noticed := true
+		if fate == "idle-eof" {
+			noticed = s.killIdle()
+		}
+		pool := len(s.live())
+		var res res08
+		if join {
+			res = <-joined
+		} else {
+			ctx, cancel := context.WithTimeout(context.Background(), 3*time.Second)
+			res = t.query(ctx)
+			cancel()
+		}
+		line, n := classify08(kind, s, res, 0, pool)
+		s.mu.Lock()
+		var turns []string
+		stale := 0
+		picked := false
+		for _, id := range s.order[res.tag] {
+			ok := s.replied[fmt.Sprintf("%d/%d", id, res.tag)]
+			if s.born[id].Before(res.started) { // its dial was asked for before this query existed
+				turns = append(turns, "pooled"+b01(ok))
+				if !ok {
+					stale++
+				}
+				picked = picked || s.viaGate[id]
+			} else {
+				turns = append(turns, "fresh"+b01(ok))
+			}
+		}
+		s.mu.Unlock()
+		if errors.Is(res.err, errDial08) {
+			turns = append(turns, "dialFail")
+		}
+		if len(turns) == 0 {
+			turns = []string{"stuck"}
+		}
+		if !picked && k0 == 0 && fate != "idle-eof" && try < 2 && setup {
+			// the connection was not in the pool yet when the query looked: not the situation aimed at, once more
+			r.Count(kind + ":gave-up-during-dial:not-picked")
+			t.close()
+			continue
+		}
+		if !setup {
+			r.Note(fmt.Sprintf("C08 P/%s/%d/%d/%s: the scenario could not be set up within its time limits", kind, p, k0, fate))
+		}
+		// the callers that gave up: their context ended, nothing was transmitted
+		for i, a := range aRes {
+			al, an := classify08(kind, s, a, 0, 0)
+			ad := map[string]any{"transport": kind, "scenario": "gave-up-during-dial: the caller that gave up", "caller": i}
+			check(kind, a, al, an, ad, -1, false, false)
+			if kind == "reuse" {
+				r.Line("loop reuse dialFail", al)
+			}
+		}
+		desc := map[string]any{"transport": kind, "scenario": "gave-up-during-dial: callers cancelled while their connections were being dialed, the dials finish afterwards, the server drops or keeps those connections, next query",
+			"cancelled_callers": p, "idle_connections_that_answered_a_query": k0, "server_does_to_the_late_connections": strings.Join(gm, ","), "fate": fate, "fresh_connection": freshMode,
+			"next_query_arrives_during_the_dial": join, "pool_size_before": pool, "late_connection_was_picked": picked, "transport_noticed_idle_close": noticed, "observed_environment": strings.Join(turns, ",")}
+		check(kind, res, line, n, desc, stale, freshMode == "answer", false)
+		r.Line(fmt.Sprintf("loop %s %s", mkind, strings.Join(turns, ",")), line)
+		r.Eval(fmt.Sprintf("P/%s/%d/%d/%s/%v/%s", kind, p, k0, fate, join, strings.Join(turns, ",")), picked)
+		r.Count(kind + ":gave-up-during-dial")
+		if picked {
+			r.Count(kind + ":gave-up-during-dial:late-connection-picked")
+		}
+		r.Trace()
+		t.close()
+		return
+	}
 }
 
 func rep08(turn string, n int) []string {
@@ -528,6 +776,10 @@ func runC08(r *Run) {
 		for _, opener := range []bool{false, true} {
 			for j := 1; j <= r.N(6, 20); j += 1 + rep%3 {
 				s := newSrv08()
+				slow := j%2 == 1
+				if slow { // closing the dying connection takes a while: the woken queries are retried while it is still being closed
+					s.slowClose = 3 * time.Millisecond
+				}
 				t := mk08("pipeline", s, 64)
 				var results []res08
 				var turns [][]string
@@ -570,7 +822,7 @@ func runC08(r *Run) {
 				wg.Wait()
 				for i, res := range results {
 					line, n := classify08("pipeline", s, res, 0, 1)
-					desc := map[string]any{"transport": "pipeline", "scenario": "closed-with-queries-in-flight", "in_flight": j, "opener_in_flight": opener, "environment": strings.Join(turns[i], ",")}
+					desc := map[string]any{"transport": "pipeline", "scenario": "closed-with-queries-in-flight", "in_flight": j, "opener_in_flight": opener, "slow_close": slow, "environment": strings.Join(turns[i], ",")}
 					stale := 1
 					if turns[i][0] == "fresh0" {
 						stale = -1
@@ -601,6 +853,26 @@ func runC08(r *Run) {
 			r.Count("pipeline:dies-after-reservation")
 			r.Trace()
 			t.close()
+		}
+		// ---- P: callers give up while their connections are still being dialed (slow handshake); the dials finish
+		// afterwards and the connections stay in the pool without ever having carried a query; the server drops them
+		// (silently: seen on the next write; or while idle) or keeps them; the next query finds them in the pool,
+		// next to k0 idle connections that did carry a query
+		pkinds := []string{"reuse", "pipeline"}
+		if r.Thorough() || rep == 0 {
+			pkinds = append(pkinds, "pipeline-udp")
+		}
+		for _, kind := range pkinds {
+			for p := 1; p <= 3; p++ {
+				for _, fate := range []string{"eof-after-write", "reset-on-write", "idle-eof", "random"} {
+					k0 := 0
+					if rep > 0 || fate == "random" {
+						k0 = r.Rng.Intn(3)
+					}
+					join := kind != "reuse" && fate != "idle-eof" && r.Rng.Intn(3) == 0
+					parked08(r, check, kind, p, k0, fate, join)
+				}
+			}
 		}
 		// ---- H: reuse: j concurrent queries over k silently dead idle connections
 		for k := 1; k <= 6; k++ {
@@ -728,5 +1000,5 @@ func runC08(r *Run) {
 			t.close()
 		}
 	}
-	r.Finish("transports {ReuseConnTransport, PipelineTransport over TraditionalDnsConn} x server scripts {k = 0..6 pooled connections silently dead (write accepted then closed / reset on write) followed by a fresh connection that works / fails / cannot be dialed; closed while idle; closed right after a reply; transport closed; silent pooled connections + caller's context ends; closed with j queries in flight (with and without the opener among them); dies between reservation and write; j concurrent queries over k dead idle connections; random sequential streams with bursts}; per query: connections its bytes were written on, result class; the model runs on the enforced (or observed) environment")
+	r.Finish("transports {ReuseConnTransport, PipelineTransport over TraditionalDnsConn} x server scripts {k = 0..6 pooled connections silently dead (write accepted then closed / reset on write) followed by a fresh connection that works / fails / cannot be dialed; closed while idle; closed right after a reply; transport closed; silent pooled connections + caller's context ends; closed with j queries in flight (with and without the opener among them, Close() of the connection fast or slow); dies between reservation and write; j concurrent queries over k dead idle connections; p = 1..3 callers cancelled while their connections are being dialed (held handshake), the dials finish afterwards and leave connections that never carried a query in the pool next to k0 that did, the server drops them on the next write / while idle / keeps them (fixed or random per connection), then a query (pipeline: also one that arrives during the dial); random sequential streams with bursts}; per query: connections its bytes were written on, result class; the model runs on the enforced (or observed) environment")
 }
